@@ -39,6 +39,22 @@ def make_cases(rng, tier):
                 c = make_case(cid, body, [d for d in base if d["name"] not in names] + hx + inj, rng=rng, fancy=True, prelude=prelude, sal=1, multiline=rng.random() < 0.6)
                 c["fault"], c["position"] = name, pos
                 cases.append(c); cid += 1
+    # the same compiled text executed AGAIN with other data: a block whose FIRST child failed in the first execution and whose
+    # SECOND child is the only one that fails in the second — what the second error cites is the second child's line only
+    hs = lambda x, y: inj_struct("h", fields={"I64": tv_int("i64", x), "I32": tv_int("i32", y)})
+    div = lambda tgt, den: assign(("var", tgt), "=", ("math", mk_mbin("/", mint(100), mvar(den))))
+    for (first, second) in (((0, 5), (4, 0)), ((4, 0), (0, 5)), ((0, 5), (4, 5)), ((4, 5), (4, 0))):
+        for outer in ("plain", "if", "for"):
+            blk = sconc([("asg", div("qa", "h.I64")), ("asg", div("qb", "h.I32"))])
+            if outer == "if":
+                blk = sif(emath(matom(const(kbool(True)))), block([blk]))
+            elif outer == "for":
+                blk = sfor(assign(("var", "i"), "=", ("math", mint(0))), mk_ecmp("<", emath(mvar("i")), emath(mint(1))), assign(("var", "i"), "+=", ("math", mint(1))), block([blk]))
+            filler = [assign(("var", "f%d" % i), "=", ("math", mint(i))) for i in range(rng.randint(0, 3))]
+            c = make_case(cid, block(filler + [blk, scall(call("func", "Mark", [("const", kint(2))]))]), [hs(*first), inj_func("Mark")], rng=rng, fancy=True, sal=1, multiline=False)
+            c["fault"], c["position"] = "div-by-zero-second-execution", "conc-" + outer
+            c["reinject"], c["inject2"] = True, [hs(*second), inj_func("Mark")]
+            cases.append(c); cid += 1
     return cases
 
 
@@ -50,7 +66,7 @@ def nontrivial(c, o):
 
 RULE = ("single-fault programs: 31 fault classes x 24 construct positions (as C09, incl. conc blocks nested in for / if / else and blocks made of calls of one kind) printed under random layouts — random indentation, tabs, blank lines, comment lines, line breaks in the middle of constructs (60 % of the texts), the faulty arithmetic inside brackets (40 %), 0-4 filler statements before the fault, 0-2 other rules "
         "before the faulty rule in the same text — so that the faulty construct lands on an arbitrary line; compared: every (line, column) cited by the error text (regex `line N, column M`) with the citation list of the model, whose node "
-        "positions are those the printer assigned to first tokens, and every node position in the listener-built tree with the printer's; distinct non-trivial = distinct (fault class, position, cited line) with at least one citation")
+        "positions are those the printer assigned to first tokens, and every node position in the listener-built tree with the printer's; plus 12 blocks executed a second time with other data (another child fails: the second error cites that child only); distinct non-trivial = distinct (fault class, position, cited line) with at least one citation")
 
 
 def main(run):
